@@ -139,7 +139,7 @@ def gate() -> list[str]:
     return bad
 
 
-def eval_cases(files: list[Path], timeout: int = 900) -> list[tuple[Path, int, str]]:
+def eval_cases(files: list[Path], timeout: int = 600) -> list[tuple[Path, int, str]]:
     def one(p: Path):
         rc, out = coqc_file(p, timeout)
         return p, rc, out
